@@ -444,4 +444,6 @@ def run(prog, rep, tier, snap):
     from . import c08
     rep.rule("R08.2", "the daemon's own instant -> timestamp conversion agrees with the calendar tables (shared with C08)", 15)
     rep.call(c08.r08_2, prog, rep)
+    rep.rule("R08.11", "the wake-up time of an occurrence is its own second, all-day occurrences at the start of their day (shared with C08)", 1)
+    rep.call(c08.r08_11, prog, rep)
 READY = True
